@@ -31,6 +31,12 @@ func (c *Client) cancelQuery() error {
 	ctx, cancel := context.WithTimeout(context.Background(), cancelDeadline)
 	defer cancel()
 
+	// The write deadline set below can be reset by a concurrent flush of the
+	// query sender, and then the write blocks forever if the server does not
+	// read. Close the connection when the cancel deadline is exceeded.
+	stop := context.AfterFunc(ctx, func() { _ = c.Close() })
+	defer stop()
+
 	// Not using c.buf to prevent data race.
 	b := proto.Buffer{
 		Buf: make([]byte, 0, 1),
